@@ -18,7 +18,7 @@ except Exception:           # pragma: no cover
 
 RULE = 'C16: reals from boundary grids and log-uniform magnitudes 1e-9..1e9 of both signs; numeric text and logicals; PV tuples'
 ASSUMPTIONS = ['reference values from mpmath at 50 digits on the exact value of the double argument' if HAVE_MP else 'mpmath unavailable: reference values from the math module (weaker)',
-               'tolerance |a-b| <= 1e-9*max(|a|,|b|) + 1e-12; ACOSH within 1e-6 of 1 (infinite condition number) and EXP/SINH/COSH beyond |x| = 700 (overflow) are excluded from the value comparison',
+               'tolerance |a-b| <= 1e-9*max(|a|,|b|) + 1e-12; ACOSH within 1e-6 of 1 (infinite condition number) and EXP beyond x = 709.78 and SINH/COSH beyond |x| = 710.4 (the value leaves the double range) are excluded from the value comparison',
                'ACOT of a negative number: both the (-pi/2,0) and the (pi/2,pi) convention are accepted',
                'an error of any code is accepted outside the domain; nan/inf count as "a number returned"']
 
@@ -72,7 +72,9 @@ UNARY = sorted(REF.keys())
 
 
 def comparable(name, x):
-    if name in ('EXP', 'SINH', 'COSH') and abs(x) > 700:
+    if name == 'EXP' and x > 709.78:
+        return False        # e^x exists as a double up to ln(max double) = 709.7827...; beyond it the comparison is not made
+    if name in ('SINH', 'COSH') and abs(x) > 710.4:
         return False
     if name == 'ACOSH' and abs(x - 1) < 1e-6 and x != 1:
         return False
@@ -99,7 +101,7 @@ def ulp_grid():
     return out
 
 
-GRID = ulp_grid()
+GRID = ulp_grid() + [700.5, 705.0, 709.0, 709.5, 709.78, 709.2, 710.0, 710.4, -709.5, -710.3, -745.0, 88.7, 230.25]      # the last stretch before EXP / SINH / COSH leave the double range
 
 
 def reals():
@@ -495,5 +497,5 @@ LAWS = [
 ]
 
 LEVEL_TEXT = 'Hypothesis exploration: every elementary function against a 50-digit mpmath reference on boundary grids and nine decades of magnitude, domain errors, 29 identities through single formulas, ATAN2 geometry, PV residual, RAND ranges. Floating-point tolerance stated; does not cover every double.'
-LEVEL_NOTE = 'Trusted: mpmath (from the offline wheelhouse) as the reference for elementary functions. Ill-conditioned points (ACOSH next to 1, TAN/COT next to a pole, overflow beyond |x|=700) are excluded and counted.'
+LEVEL_NOTE = 'Trusted: mpmath (from the offline wheelhouse) as the reference for elementary functions. Ill-conditioned points (ACOSH next to 1, TAN/COT next to a pole, EXP / SINH / COSH where the value leaves the double range) are excluded and counted.'
 TECHNIQUE = 'Hypothesis differential testing against a high-precision reference (mpmath) + metamorphic identities'
